@@ -103,6 +103,20 @@ CORPUS += [dict(label=L, raw=False, n_spikes=4, features='no', curated=c, cluste
                 kslabel=(i % 2 == 0))
            for i, (L, c) in enumerate(zip(LABELS_ATTR + LABELS_ODD, ['no', 'ops', 'same_file', 'nogap'] * 20))]
 
+# stage 3: the uint16 boundary (cluster ids 65534 / 65535: inside the statement; 65536: one step outside, judged by model
+# equality only), sparse template storage (outside the statement: the export raises), convert(force=True)
+CORPUS_EDGE = [dict(big_top='edge', label='probe00', features='no'), dict(big_top='edge', label='', features='all', params_py=False)]
+CORPUS_BEYOND = [dict(big_top='over', label='probe00', features='no'),
+                 dict(sparse=True, curated='no'), dict(sparse=True, curated='ops', label='probe00'), dict(sparse=True, curated='same_file')]
+CORPUS_FORCE = [dict(force=True, raw=False), dict(force=True, raw=True, temp_wh=True, label='probe00', old_subset=False),
+                dict(force=True, raw=False, old_subset=True, drift=True, labels=True, cluster_probes=True, kslabel=True),
+                dict(force=True, target='fresh_empty', vec2d=True), dict(force=True, target='same_dot')]
+COMPRESS = [dict(ids='edge', label='', missing='none'), dict(ids='edge', label='probe00', missing='none', vec2d=True),
+            dict(ids='over', label='', missing='none'), dict(ids='over', label='probe00', missing='none'),
+            dict(ids='neg', label='', missing='none'), dict(ids='small', label='templates', missing='none'),
+            dict(ids='edge', label='clusters', missing='none'), dict(ids='edge', missing='templates'), dict(ids='edge', missing='clusters'),
+            dict(ids='small', label='a.b', missing='none', decoys=True)]
+
 AXES = [
     ('raw', [False, True]), ('features', ['no', 'all', 'subset']), ('curated', ['no', 'ops', 'nogap', 'same_file']),
     ('probes', ['none', 'const0', 'two', 'three']), ('vec2d', [False, True]), ('label', ['', 'probe00']),
@@ -160,6 +174,27 @@ def generate(tier, rng):
         if rng.random() < 0.15:
             force['label'] = rng.choice(LABELS_ATTR + LABELS_ODD)
         cases.append({'kind': 'convert', 'inp': D13.gen(rng, **force)})
+    # ---- stage 3 additions: a separate random stream, so that the cases above are the ones of the earlier passes ----
+    import random
+    rng3 = random.Random('c13-stage3-%s' % tier)
+    for c in cases:
+        if c['inp']['target'] == 'fresh' and rng3.random() < 0.12:
+            c['inp']['force'] = True
+            c['inp']['opts']['force'] = True
+    for force in CORPUS_FORCE:
+        for _ in range(reps):
+            cases.append({'kind': 'convert', 'inp': D13.gen(rng3, **force)})
+    n_edge = {'quick': 1, 'thorough': 6, 'search': 1}[tier]
+    for k in range(n_edge):
+        cases.append({'kind': 'convert', 'inp': D13.gen(rng3, **CORPUS_EDGE[k % len(CORPUS_EDGE)])})
+    for k, force in enumerate(CORPUS_BEYOND):
+        for _ in range(1 if (tier != 'thorough' or 'big_top' in force) else 4):
+            cases.append({'kind': 'beyond', 'inp': D13.gen(rng3, **force)})
+    for force in COMPRESS:
+        for _ in range(reps):
+            cases.append({'kind': 'compress', 'inp': D13.gen_compress(rng3, **force)})
+    for _ in range({'quick': 10, 'thorough': 150, 'search': 40}[tier]):
+        cases.append({'kind': 'compress', 'inp': D13.gen_compress(rng3)})
     return cases
 
 
@@ -240,12 +275,67 @@ def _prepare_source(t, src):
         os.symlink('.', os.path.join(src, 'self'))
 
 
+def _memoised(cls, names):
+    """The peak-channel properties of TemplateModel are pure but recomputed from the whole waveform table at every
+    access; alf.py reads them inside its per-cluster loop, so one export with 65536 cluster ids takes > 11 minutes
+    (measured 674 s and 744 s; 3.8 s with the value computed once -- the 18 written arrays are identical, checked by
+    hand).  For the two boundary datasets only, each property is computed once per model and a COPY is handed out at
+    every access.  Returns the undo function."""
+    saved = {n: cls.__dict__[n] for n in names}
+    cache = {}
+
+    def memo(name, orig):
+        def get(self):
+            k = (name, id(self))
+            if k not in cache:
+                cache[k] = orig.fget(self)
+            return cache[k].copy()
+        return property(get)
+    for n in names:
+        setattr(cls, n, memo(n, saved[n]))
+
+    def undo():
+        for n in names:
+            setattr(cls, n, saved[n])
+    return undo
+
+
+def run_compress(case):
+    import numpy as np
+    from pathlib import Path
+    from phylib.io.alf import EphysAlfCreator
+    d = os.path.realpath(tempfile.mkdtemp(prefix='c13z_', dir=os.environ.get('VT_WORK') or None))
+    try:
+        for name, spec in case['inp']['files'].items():
+            np.save(os.path.join(d, name), D.spec_to_np(spec))
+        before, _, _ = D13.snapshot(d)
+        c = EphysAlfCreator.__new__(EphysAlfCreator)         # no model needed: the method only uses out_path
+        c.out_path = Path(d)
+        try:
+            c.compress_spikes_dtypes()
+            outcome, info = 'compressed', ''
+        except StopIteration:
+            outcome, info = 'stop', ''
+        except Exception as e:  # noqa
+            outcome, info = 'crash', '%s: %s' % (type(e).__name__, str(e)[:160])
+        after, other, _ = D13.snapshot(d)
+        if other:
+            outcome, info = 'crash', 'non-array files appeared: %r' % sorted(other)
+        return ('c13z', {'outcome': outcome, 'info': info, 'before': sorted(before.items()), 'after': sorted(after.items())})
+    finally:
+        shutil.rmtree(d, ignore_errors=True)
+
+
 def run_case(case):
     import numpy as np
+    if case['kind'] == 'compress':
+        return run_compress(case)
     from phylib.io.model import TemplateModel
     from phylib.io.alf import EphysAlfCreator
     inp = case['inp']
     ds = inp['ds']
+    undo = (_memoised(TemplateModel, ['clusters_channels', 'templates_channels'])
+            if inp['opts'].get('big_top', 'no') != 'no' else (lambda: None))
     d = tempfile.mkdtemp(prefix='c13_', dir=os.environ.get('VT_WORK') or None)
     d = os.path.realpath(d)
     cwd = os.getcwd()
@@ -267,7 +357,7 @@ def run_case(case):
         top0 = sorted(os.listdir(d))
         outcome, info = 'converted', ''
         try:
-            m2 = EphysAlfCreator(m).convert(target, label=inp['label'], ampfactor=inp['factor'])
+            m2 = EphysAlfCreator(m).convert(target, force=inp.get('force', False), label=inp['label'], ampfactor=inp['factor'])
         except IOError as e:
             if 'cannot be the same' in str(e):
                 outcome = 'refused'
@@ -330,6 +420,7 @@ def run_case(case):
                          'stemplates': _ta(m2.spike_templates), 'cmap': _ta(m2.channel_mapping), 'pos': _ta(m2.channel_positions)}
         return ('c13', obs)
     finally:
+        undo()
         os.chdir(cwd)
         for x in (m2, m):
             try:
@@ -343,18 +434,32 @@ def run_case(case):
 # ---- encoding -------------------------------------------------------------------------------------------
 
 def _files(l):
-    return q.lst(l, lambda kv: '(%s, %s)' % (q.s(kv[0]), D.coq_arr(kv[1])))
+    return q.lst(l, lambda kv: '(%s, %s)' % (q.s(kv[0]), D13.coq_arr(kv[1])))
 
 
 def _text(t):
     if t[0] == 'uuids':
+        if len(t[1]) > 4096 and t[1] == list(range(len(t[1]))):
+            return '(TUuids (zrange %d))' % len(t[1])            # 65536 distinct identifiers
         return '(TUuids %s)' % q.zl(t[1])
     return '(TCopy %s)' % q.z(t[1])
 
 
 def encode(case, obs):
+    if case['kind'] == 'compress':
+        if obs[0] != 'c13z':
+            files = sorted((name, D.spec_to_tokarr(spec)) for name, spec in case['inp']['files'].items())
+            return '(InCompress %s)' % _files(files), 'ObsCrash'
+        o = obs[1]
+        cin = '(InCompress %s)' % _files(o['before'])
+        if o['outcome'] == 'stop':
+            return cin, 'ObsStop'
+        if o['outcome'] == 'crash':
+            return cin, 'ObsCrash'
+        return cin, '(ObsCompressed %s)' % _files(o['after'])
     inp = case['inp']
     ds = inp['ds']
+    ctor = 'InBeyond' if case['kind'] == 'beyond' else 'InConvert'
     same = not inp['target'].startswith('fresh')
     rate = D.coq_tok(D.tok(float(ds['params']['sample_rate'])))
     ncd = q.opt(ds['params'].get('n_channels_dat'))
@@ -363,15 +468,18 @@ def encode(case, obs):
         # file list lacks the files loading creates, so the comparator answers 3 (machinery, not a verdict).
         files = sorted((name, D.spec_to_tokarr(spec)) for name, spec in ds['files'].items())
         others = sorted((k, i) for i, k in enumerate(sorted(list(ds.get('text', {})) + list(ds.get('bin', {})))))
-        cin = '(InConvert (mkinp %s %s %s %s %s %s %s))' % (
+        cin = '(' + ctor + ' (mkinp %s %s %s %s %s %s %s))' % (
             _files(files), q.lst(others, lambda kv: '(%s, %s)' % (q.s(kv[0]), q.z(kv[1]))), rate, ncd,
             q.b(bool(ds.get('raw'))), q.b(same), q.s(inp['label']))
         return cin, 'ObsCrash'
     o = obs[1]
-    cin = '(InConvert (mkinp %s %s %s %s %s %s %s))' % (
+    cin = '(' + ctor + ' (mkinp %s %s %s %s %s %s %s))' % (
         _files(o['src_npy']), q.lst(o['src_others'], lambda kv: '(%s, %s)' % (q.s(kv[0]), q.z(kv[1]))), rate, ncd,
         q.b(o['has_raw']), q.b(same), q.s(inp['label']))
     if o['outcome'] == 'crash':
+        if not same and 'changed' in o:
+            # a fresh target and convert() raised: the frame of the source is still judged (Corr.frame_partial_b)
+            return cin, '(ObsCrashed %s %s %s)' % (q.lst(o['changed'], q.s), q.lst(o['deleted'], q.s), q.lst(o['new_names'], q.s))
         return cin, 'ObsCrash'
     if o['outcome'] == 'refused':
         return cin, '(ObsRefused %s)' % q.b(o['untouched'])
@@ -388,19 +496,27 @@ def encode(case, obs):
 
 
 def nontrivial(case, obs):
+    if case['kind'] == 'compress':
+        return obs[0] == 'c13z' and obs[1]['outcome'] in ('compressed', 'stop')
+    if case['kind'] == 'beyond':
+        return obs[0] == 'c13'
     return obs[0] == 'c13' and obs[1]['outcome'] in ('converted', 'refused')
 
 
 def dist(case, obs):
     o = case['inp']['opts']
+    if case['kind'] == 'compress':
+        return ['kind=compress', 'outcome=' + (obs[1]['outcome'] if obs[0] == 'c13z' else 'harness-crash')] + [
+            'compress.%s=%s' % (k, o[k]) for k in ('ids', 'label', 'missing', 'vec2d', 'decoys')]
     if obs[0] != 'c13':
         out = ['outcome=harness-crash:%s' % (obs[1] if len(obs) > 1 else '')]
     else:
         out = ['outcome=' + obs[1]['outcome'] + ((':' + obs[1]['info'].split(':')[0]) if obs[1]['outcome'] == 'crash' else '')]
     for k in ('raw', 'features', 'curated', 'probes', 'vec2d', 'label', 'factor', 'temp_wh', 'kslabel', 'params_py',
               'last_template_empty', 'other_template_empty', 'target', 'id_dtype', 'clu_dtype', 'cm_dtype', 'time_dtype', 'old_subset',
-              'cluster_probes', 'drift', 'labels', 'big_ids'):
-        out.append('%s=%s' % (k, o[k]))
+              'cluster_probes', 'drift', 'labels', 'big_ids', 'big_top', 'sparse', 'force'):
+        out.append('%s=%s' % (k, o.get(k)))
+    out.append('kind=' + case['kind'])
     out.append('n_channels=%s' % ('<12' if o['n_channels'] < 12 else '12' if o['n_channels'] == 12 else '>12'))
     out.append('n_spikes=%d' % o['n_spikes'])
     if obs[0] == 'c13' and obs[1]['outcome'] == 'converted':
@@ -409,6 +525,8 @@ def dist(case, obs):
 
 
 def size(case):
+    if case['kind'] == 'compress':
+        return sum(len(f['data']) + 20 for f in case['inp']['files'].values())
     ds = case['inp']['ds']
     return sum(len(f['data']) for f in ds['files'].values()) + 50 * len(ds['files']) + (200 if ds.get('raw') else 0)
 
@@ -422,12 +540,27 @@ GROUPS = [['pc_features.npy', 'pc_feature_ind.npy', 'pc_feature_spike_ids.npy'],
 
 def shrink(case):
     inp = case['inp']
+    if case['kind'] == 'compress':
+        for name in sorted(inp['files']):
+            if not (name.startswith('spikes.templates.') or name.startswith('spikes.clusters.')):
+                c = copy.deepcopy(inp)
+                c['files'].pop(name)
+                yield {'kind': 'compress', 'inp': c}
+        for name, f in sorted(inp['files'].items()):
+            if len(f['data']) > 2 and f['shape'][0] == len(f['data']):
+                c = copy.deepcopy(inp)
+                c['files'][name]['data'] = f['data'][:1] + f['data'][-1:]
+                c['files'][name]['shape'] = [2] + f['shape'][1:]
+                yield {'kind': 'compress', 'inp': c}
+        return
     ds = inp['ds']
 
     def variant(f):
         c = copy.deepcopy(inp)
         f(c)
-        return {'kind': 'convert', 'inp': c}
+        return {'kind': case['kind'], 'inp': c}
+    if inp.get('force'):
+        yield variant(lambda c: c.__setitem__('force', False))
     if inp['label']:
         yield variant(lambda c: c.__setitem__('label', ''))
     if inp['factor'] != 1:
@@ -457,6 +590,17 @@ def shrink(case):
 
 
 def repro(case):
+    if case['kind'] == 'compress':
+        return ("import sys, os, tempfile; sys.path[:0] = ['/verif/harness', os.environ.get('PHYLIB_REPO', '/repo')]\n"
+                "from vt import npshim, datasets as D; npshim.setup_process()\n"
+                "import numpy as np\nfrom pathlib import Path\nfrom phylib.io.alf import EphysAlfCreator\n"
+                "files = %r\n"
+                "d = tempfile.mkdtemp()\n"
+                "for k, spec in files.items(): np.save(os.path.join(d, k), D.spec_to_np(spec))\n"
+                "c = EphysAlfCreator.__new__(EphysAlfCreator); c.out_path = Path(d)\n"
+                "try:\n    c.compress_spikes_dtypes()\nexcept StopIteration: print('StopIteration')\n"
+                "for k in sorted(os.listdir(d)):\n    a = np.load(os.path.join(d, k)); print(k, a.dtype, a.shape, a.ravel(), ' was', files[k]['dtype'], files[k]['data'])\n"
+                % (case['inp']['files'],))
     return ("import sys, os, tempfile; sys.path[:0] = ['/verif/harness', os.environ.get('PHYLIB_REPO', '/repo')]\n"
             "from vt import npshim, datasets as D; npshim.setup_process()\n"
             "import numpy as np\n"
@@ -470,7 +614,7 @@ def repro(case):
             "target, out = c13._place_target(inp['target'], d, src)   # the path given to convert(), where the export is found\n"
             "print('convert(', repr(target), ') of', src)\n"
             "try:\n"
-            "    m2 = EphysAlfCreator(m).convert(target, label=inp['label'], ampfactor=inp['factor'])\n"
+            "    m2 = EphysAlfCreator(m).convert(target, force=inp.get('force', False), label=inp['label'], ampfactor=inp['factor'])\n"
             "except Exception as e:\n"
             "    m2 = None; print('convert raised', type(e).__name__, e)\n"
             "os.chdir(cwd); after = D.listing(src)\n"
